@@ -550,3 +550,62 @@ func TestVerif_C19_Decoders(t *testing.T) {
 		acct.Case(len(data) > 0, fmt.Sprintf("dec|%x", data[:min(12, len(data))]), func() any { return map[string]any{"kind": "decoders", "data_len": len(data)} }, "decoders")
 	})
 }
+
+// listing RPCs with identifiers of the session: every (since, until) pair over real entries, unknown and malformed
+// identifiers, with all flag combinations
+func TestVerif_C19_ListingRPCs(t *testing.T) {
+	acct := vacct.Get("C19")
+	vacct.RapidCheck(t, vacct.N(3, 150), func(rt *rapid.T) {
+		w := c19NewWorld(t)
+		defer w.cleanup()
+		res := w.call("MultiMemberGroupCreate", &protocoltypes.MultiMemberGroupCreate_Request{})
+		if res.errored || res.panicked {
+			rt.Fatalf("harness: create group failed")
+		}
+		gpk := res.reply.(*protocoltypes.MultiMemberGroupCreate_Reply).GroupPk
+		n := rapid.IntRange(0, 5).Draw(rt, "n")
+		var msgIDs, metaIDs [][]byte
+		for i := 0; i < n; i++ {
+			r := w.call("AppMessageSend", &protocoltypes.AppMessageSend_Request{GroupPk: gpk, Payload: []byte(fmt.Sprintf("m%d", i))})
+			if !r.errored && r.reply != nil {
+				msgIDs = append(msgIDs, r.reply.(*protocoltypes.AppMessageSend_Reply).Cid)
+			}
+			r = w.call("AppMetadataSend", &protocoltypes.AppMetadataSend_Request{GroupPk: gpk, Payload: []byte(fmt.Sprintf("d%d", i))})
+			if !r.errored && r.reply != nil {
+				metaIDs = append(metaIDs, r.reply.(*protocoltypes.AppMetadataSend_Reply).Cid)
+			}
+		}
+		junk := [][]byte{nil, {}, []byte("not-a-cid"), cid.NewCidV1(cid.Raw, []byte("\x12\x20aaaaaaaaaaaaaaaaaaaaaaaaaaaaaaaa")).Bytes()}
+		for _, tc := range []struct {
+			method string
+			ids    [][]byte
+		}{{"GroupMessageList", msgIDs}, {"GroupMetadataList", metaIDs}} {
+			bounds := append(append([][]byte{}, tc.ids...), junk...)
+			for si, s := range bounds {
+				for ui, u := range bounds {
+					for flags := 0; flags < 8; flags++ {
+						var req proto.Message
+						if tc.method == "GroupMessageList" {
+							req = &protocoltypes.GroupMessageList_Request{GroupPk: gpk, SinceId: s, UntilId: u, SinceNow: flags&1 != 0, UntilNow: flags&2 != 0, ReverseOrder: flags&4 != 0}
+						} else {
+							req = &protocoltypes.GroupMetadataList_Request{GroupPk: gpk, SinceId: s, UntilId: u, SinceNow: flags&1 != 0, UntilNow: flags&2 != 0, ReverseOrder: flags&4 != 0}
+						}
+						// subscriptions (no upper bound) only end with the client: keep a few of them, they cost the stream timeout
+						if u == nil && flags&2 == 0 && (si+flags)%5 != 0 {
+							continue
+						}
+						r := w.call(tc.method, req)
+						real := si < len(tc.ids) && ui < len(tc.ids)
+						acct.Case(real, fmt.Sprintf("%s|%d|%d|%d|%d", tc.method, len(tc.ids), si, ui, flags), func() any {
+							return map[string]any{"kind": "listing-rpc", "method": tc.method, "entries": len(tc.ids), "since_index": si, "until_index": ui, "flags": flags}
+						}, "listing-rpc", lbl07(real, "listing-rpc/both-bounds-real"))
+						if r.panicked {
+							acct.Violation(fmt.Sprintf("panic/%s/%s", tc.method, r.site), "TestVerif_C19_ListingRPCs", map[string]any{"method": tc.method, "entries": len(tc.ids), "since_index": si, "until_index": ui, "flags": flags, "panic": r.panicMsg, "site": r.site})
+							rt.Fatalf("C19: %s panicked (since=#%d until=#%d of %d entries, flags %d) at %s: %s", tc.method, si, ui, len(tc.ids), flags, r.site, r.panicMsg)
+						}
+					}
+				}
+			}
+		}
+	})
+}
